@@ -17,6 +17,7 @@ META = {
 
 def run(R):
     tonic = R.crate('tonic')
+    OPT = None
     if '_tls-any' not in tonic.features:
         R.bad('C15.R0', 'tls-feature', '', 'facts were extracted without a TLS feature: %r' % tonic.features, kind='ANCHOR-MISSING')
         return
@@ -119,7 +120,12 @@ def run(R):
         c = it.calls(pat='TlsConnector::new')
         if len(c) != 1:
             raise CheckError('ANCHOR-MISSING: TlsConnector::new call in into_tls_connector')
-        dterm = strip_refs(it.origin(c[0][1]['args'][3]))
+        # which argument is the verified name: the one fed by self.domain / uri.host()
+        dom_i = [i_ for i_, a_ in enumerate(c[0][1]['args']) if mentions_field(it.origin(a_), 'domain') or term_contains(it.origin(a_), lambda x: is_call(x, name='host'))]
+        if len(dom_i) != 1:
+            raise CheckError('UNRECOGNISED: %d arguments of TlsConnector::new are fed by self.domain / uri.host()' % len(dom_i))
+        DOMAIN_N = dom_i[0] + 1
+        dterm = strip_refs(it.origin(c[0][1]['args'][dom_i[0]]))
         alts = dterm[1] if dterm[0] == 'phi' else [dterm]
         kinds = set()
         for alt in alts:
@@ -141,12 +147,17 @@ def run(R):
                 R.check(any(tm[0] == 'discr' and 'domain' in show(tm) and vals in want for s_, vals, tm in g), 'C15.R3', 'domain-arm:%s' % ('host' if isv else 'configured'), site(it, wb), 'guards: %r' % [(v, show(tm)[:40]) for s_, v, tm in g])
         R.eq(sorted(kinds), ['configured', 'uri-host'], 'C15.R3', 'domain-sources', site(it), 'sources of the verified name')
         args = c[0][1]['args']
-        want = ['certs', 'trust_anchors', 'identity', None, 'assume_http2', 'use_key_log']
-        for i, wn in enumerate(want):
-            if wn is None:
-                continue
-            fn = field_names(it.origin(args[i]))
-            R.check(fn[-1:] == [wn], 'C15.R3', 'connector-arg:%s' % wn, site(it, c[0][0]), 'TlsConnector::new argument %d = %s (required self.%s)' % (i, show(it.origin(args[i]))[:60], wn))
+        # each configuration field reaches the connector: the material (possibly pre-assembled by a helper), and each flag as exactly
+        # one argument — the position the flag is passed in is the parameter the rules below follow inside TlsConnector::new
+        for wn in ('certs', 'trust_anchors', 'identity'):
+            hits = [i_ for i_, a_ in enumerate(args) if mentions_field(it.origin(a_), wn)]
+            R.check(len(hits) >= 1, 'C15.R3', 'connector-arg:%s' % wn, site(it, c[0][0]), 'self.%s reaches TlsConnector::new (arguments %r)' % (wn, hits))
+        FLAG_N = {}
+        for wn in ('assume_http2', 'use_key_log'):
+            hits = [i_ for i_, a_ in enumerate(args) if field_names(it.origin(a_))[-1:] == [wn]]
+            R.check(len(hits) == 1, 'C15.R3', 'connector-arg:%s' % wn, site(it, c[0][0]), 'self.%s is passed to TlsConnector::new as exactly one argument: %r' % (wn, hits))
+            FLAG_N[wn] = hits[0] + 1 if len(hits) == 1 else None
+        ASSUME_N = FLAG_N['assume_http2']
         # the URI whose host is the fallback name is the URI that is dialled (endpoint.uri), never the origin override
         sites = call_sites_in_crate(tonic, pat='ClientTlsConfig::into_tls_connector')
         R.floor('C15.R3', 'into_tls_connector call sites', len(sites), 1)
@@ -156,7 +167,7 @@ def run(R):
             R.check(oku, 'C15.R3', 'verified-host-is-dialled-uri:%s' % short(cb_.path).split('::')[-1], site(cb_, cbb), 'into_tls_connector(uri) receives %s (the endpoint\'s own uri; the `origin` override only changes the :authority sent)' % show(ua)[:100])
         nw = tonic.body('channel::service::tls::TlsConnector::new')
         sn = [(bb, t) for bb, t in nw.calls(name='try_from') if 'ServerName' in (t.get('self_ty') or '') + (t.get('fn') or '') + (t.get('resolved') or '')]
-        R.check(len(sn) == 1 and show(strip_refs(nw.origin(sn[0][1]['args'][0]))).startswith('arg4'), 'C15.R3', 'ServerName-from-domain-arg', site(nw), 'ServerName::try_from(domain)')
+        R.check(len(sn) == 1 and show(strip_refs(nw.origin(sn[0][1]['args'][0]))).startswith('arg%d' % DOMAIN_N), 'C15.R3', 'ServerName-from-domain-arg', site(nw), 'ServerName::try_from(domain)')
         ag = mirlib.aggregates(nw, 'channel::service::tls::TlsConnector')
         okd = len(ag) == 1 and term_contains(nw.origin(ag[0][4][ag[0][3]['fields'].index('domain')]), lambda x: is_call(x, name='try_from'))
         # the opt-out flag of the connector: the field that stores the assume_http2 parameter (argument 5, as passed by
@@ -165,15 +176,15 @@ def run(R):
         if len(ag) == 1:
             for fname_, op_ in zip(ag[0][3]['fields'], ag[0][4]):
                 o_ = strip_refs(mirlib.simplify(nw.origin(op_)))
-                if o_[:2] == ('arg', 5):
+                if o_[:2] == ('arg', ASSUME_N):
                     OPT = (fname_, 'bool', None)
             if OPT is None:
                 meta_ = {}
                 by_flag = {}
-                for cons_, path_ in mirlib.path_rows(nw, stop={ag[0][0]}, meta=meta_, relevant=lambda sub_: sub_.startswith('arg5')):
+                for cons_, path_ in mirlib.path_rows(nw, stop={ag[0][0]}, meta=meta_, relevant=lambda sub_: sub_.startswith('arg%s' % ASSUME_N)):
                     if path_[-1] != ag[0][0]:
                         continue
-                    fl_ = [(op2_, v_) for sub_, op2_, v_ in cons_ if sub_.startswith('arg5')]
+                    fl_ = [(op2_, v_) for sub_, op2_, v_ in cons_ if sub_.startswith('arg%s' % ASSUME_N)]
                     truth_ = None if not fl_ else ((fl_[-1][0] == '==' and fl_[-1][1] not in (0, False)) or (fl_[-1][0] in ('!=', 'notin') and (fl_[-1][1] in (0, False) or fl_[-1][1] == (0,))))
                     for fname_, op_ in zip(ag[0][3]['fields'], ag[0][4]):
                         v_ = strip_refs(mirlib.simplify(nw.origin_on_path(op_, path_)))
@@ -184,6 +195,12 @@ def run(R):
                         OPT = (fname_, 'enum', list(m_[True])[0])
         oka = OPT is not None
         R.check(okd and oka, 'C15.R3', 'connector-fields', site(nw), 'TlsConnector{domain: ServerName(domain), <opt-out flag>: from assume_http2}: %r/%r (%r)' % (okd, oka, OPT))
+        # the key-log flag: config.key_log is installed in the client configuration only on the true edge of the parameter that
+        # into_tls_connector feeds with self.use_key_log (two bools side by side are easily swapped at a call site)
+        KEYLOG_N = FLAG_N['use_key_log']
+        klw = [(bb_, i_, st_) for bb_, i_, st_ in mirlib.assignments(nw, lambda st_: mirlib.place_fields(st_['p'])[-1:] == ['key_log'])]
+        okk = len(klw) == 1 and KEYLOG_N is not None and any(strip_refs(tm_)[:2] == ('arg', KEYLOG_N) and nw.edge_truth(s_, vals_) is True for s_, vals_, tm_ in nw.edge_guards(klw[0][0]))
+        R.check(okk, 'C15.R3', 'client-key_log-iff-use_key_log', site(nw, klw[0][0]) if klw else site(nw), 'config.key_log is installed only when the parameter fed by self.use_key_log (#%s) is set: %r' % (KEYLOG_N, okk))
         if OPT is None:
             raise CheckError('UNRECOGNISED: no field of TlsConnector stores the assume_http2 argument')
         cn = tonic.body('channel::service::tls::TlsConnector::connect::{closure#0}')
@@ -221,6 +238,8 @@ def run(R):
         terms = meta.get('__terms__', {})
         nok = 0
         seen_cmp = False
+        if OPT is None:
+            raise CheckError('UNRECOGNISED: the connector field carrying the assume_http2 opt-out was not identified (see C15.R3 connector-fields); the ALPN decision cannot be read')
         for cons, path in rows:
             if path[-1] not in okret:
                 continue
